@@ -365,6 +365,71 @@ theorem member_formula (t0 t : Table) (before between : List CellIn) (m c : Cell
   simp only [cellFormula, ht, Group.offsetOf, hin, if_true]
   rw [translate_correct toks _ hwf]
 
+/-- `worksheet_formula` reports exactly what `next_formula` computes cell by cell: if the sheet is
+    read without error, then for every cell `c` of the sheet (`cells = a ++ c :: b`) the table `ta`
+    reached after the cells before it and the text `v` computed for it satisfy: `v` non-empty ⇒
+    `(c.pos, v)` is in the reported list. Together with `member_formula` this carries the property
+    to the output of `worksheet_formula`. -/
+theorem sheet_reports_cell (t : Table) (a b : List CellIn) (c : CellIn) (out : List ((Nat × Nat) × List Char))
+    (h : sheetFormulas t (a ++ c :: b) = .ok out) :
+    ∃ ta tb v, runTable t a = .ok ta ∧ cellFormula ta c = .ok (tb, v) ∧ (v ≠ [] → (c.pos, v) ∈ out) := by
+  induction a generalizing t out with
+  | nil =>
+    simp only [List.nil_append, sheetFormulas] at h
+    cases hc : cellFormula t c with
+    | ok p =>
+      obtain ⟨t', v⟩ := p
+      simp only [hc] at h
+      cases hr : sheetFormulas t' b with
+      | ok rest =>
+        simp only [hr, Res.ok.injEq] at h
+        refine ⟨t, t', v, rfl, hc, ?_⟩
+        intro hv
+        rw [if_neg hv] at h
+        rw [← h]; simp
+      | err e => simp only [hr] at h; cases h
+      | panic e => simp only [hr] at h; cases h
+      | outOfFuel => simp only [hr] at h; cases h
+    | err e => simp only [hc] at h; cases h
+    | panic e => simp only [hc] at h; cases h
+    | outOfFuel => simp only [hc] at h; cases h
+  | cons x xs ih =>
+    simp only [List.cons_append, sheetFormulas] at h
+    cases hx : cellFormula t x with
+    | ok p =>
+      obtain ⟨t', vx⟩ := p
+      simp only [hx] at h
+      cases hr : sheetFormulas t' (xs ++ c :: b) with
+      | ok rest =>
+        simp only [hr, Res.ok.injEq] at h
+        obtain ⟨ta, tb, v, h1, h2, h3⟩ := ih t' rest hr
+        refine ⟨ta, tb, v, ?_, h2, ?_⟩
+        · simp only [runTable, hx]; exact h1
+        · intro hv
+          rw [← h]
+          split
+          · exact h3 hv
+          · exact List.mem_cons_of_mem _ (h3 hv)
+      | err e => simp only [hr] at h; cases h
+      | panic e => simp only [hr] at h; cases h
+      | outOfFuel => simp only [hr] at h; cases h
+    | err e => simp only [hx] at h; cases h
+    | panic e => simp only [hx] at h; cases h
+    | outOfFuel => simp only [hx] at h; cases h
+
+/-- the `ref` attribute as written (`B1:C2`, or `B1` for a single cell) is read back by
+    `get_dimension` as the declared range, for all positions of the sheet's columns -/
+theorem ref_attribute_roundtrip (p q : Nat × Nat) (hp : p.2 < 16384) (hq : q.2 < 16384) :
+    getDimension (a1 p ++ ':' :: a1 q) = .ok ⟨p.1, p.2, q.1, q.2⟩
+    ∧ getDimension (a1 p) = .ok ⟨p.1, p.2, p.1, p.2⟩ := by
+  constructor
+  · unfold getDimension
+    rw [splitColon_one _ _ (a1_no_colon p hp) (a1_no_colon q hq)]
+    simp only [getRowColumn_a1 p hp, getRowColumn_a1 q hq]
+  · unfold getDimension
+    rw [splitColon_none _ (a1_no_colon p hp)]
+    simp only [getRowColumn_a1 p hp]
+
 /-! ### non-vacuity: concrete instances meeting the hypotheses -/
 
 /-- `$A1+LOG10(A$1)&"é A1"+AB1!B2` is well-formed for the offset (1, 1) … -/
